@@ -145,8 +145,8 @@ func c20Reach(L *lua.LState) *c20Walk {
 }
 
 type c20Sets struct {
-	forbidden map[uintptr]string
-	allowed   map[uintptr]string
+	forbidden      map[uintptr]string
+	allowed        map[uintptr]string
 	unclassifiedOK map[string]bool
 }
 
@@ -562,7 +562,6 @@ func c20Termination(c *fw.Ctx, repo *scen.Git) {
 		env.Cleanup()
 	}
 }
-
 
 // ------------------------------------------------------------- hook selection
 
